@@ -12,6 +12,9 @@ abbrev Bytes := List UInt8
 theorem u8_toNat {n : Nat} (h : n < 256) : (u8 n).toNat = n := by
   unfold u8; rw [UInt8.toNat_ofNat']; omega
 
+@[simp] theorem u8_toNat_mod (n : Nat) : (u8 n).toNat = n % 256 := by
+  unfold u8; rw [UInt8.toNat_ofNat']
+
 @[simp] theorem u8_toNat_self (b : UInt8) : u8 b.toNat = b := by
   unfold u8; exact UInt8.ofNat_toNat
 
@@ -91,17 +94,17 @@ def Dec (α : Type) := Bytes → Res α
 
 namespace Dec
 
-@[inline] def pure (a : α) : Dec α := fun bs => .ok a bs
+@[inline] def ret (a : α) : Dec α := fun bs => .ok a bs
 
-@[inline] def bind (m : Dec α) (f : α → Dec β) : Dec β := fun bs =>
+@[inline] def bnd (m : Dec α) (f : α → Dec β) : Dec β := fun bs =>
   match m bs with
   | .ok a rest  => f a rest
   | .err e rest => .err e rest
   | .panic      => .panic
 
 instance : Monad Dec where
-  pure := Dec.pure
-  bind := Dec.bind
+  pure := Dec.ret
+  bind := Dec.bnd
 
 @[inline] def fail (e : Err) : Dec α := fun bs => .err e bs
 @[inline] def panic : Dec α := fun _ => .panic
